@@ -1,6 +1,6 @@
 (* Line-oriented driver for the extracted validation model (C09).
    MOD <module in the line format of harness/c09/src/ast.rs>
-        -> v0=<ok|err> v1=<ok|err> fn=<r,r,..>   r = ok:<maxheight>:<ends_early 0|1> | err | skip | notype
+        -> v0=<ok|err> v1=<ok|err> mem=<init:max|none> fn=<r,r,..>   r = ok:<maxheight>:<ends_early 0|1> | err | skip | notype
    LEB <u32|u64|i32|i64> <hex bytes>
         -> ok <value> <consumed> | err *)
 open C09_model
@@ -156,7 +156,10 @@ let fn_result (m : vmodule) (f : mfunc) : string =
 let do_mod (r : rd) : string =
   let m = parse_module r in
   let v b = if validate_module b m then "ok" else "err" in
-  Printf.sprintf "v0=%s v1=%s fn=%s" (v false) (v true) (String.concat "," (List.map (fn_result m) m.vm_funcs))
+  let mem = match artifact_memory m with
+    | Some (i, x) -> Printf.sprintf "%Lu:%Lu" (int64_of_n i) (int64_of_n x)
+    | None -> "none" in
+  Printf.sprintf "v0=%s v1=%s mem=%s fn=%s" (v false) (v true) mem (String.concat "," (List.map (fn_result m) m.vm_funcs))
 
 let bytes_of_hex (s : string) : n list =
   List.init (String.length s / 2) (fun i -> n_of_int (int_of_string ("0x" ^ String.sub s (2 * i) 2)))
